@@ -48,6 +48,7 @@ FIXED = [
  ("C01", "fix: a value of a named string type given to the date filter", "{{ t | date: f }} with t of a named string type panicked on an unchecked .(string) assertion in Convert"),
  ("C19", "fix: the scanner tells objects from tags by which pattern matched", "with an object-left delimiter longer than a whole tag that ends the source (Delims(\"((((\", \"))))\", \"<\", \">\"), template 'x<z>') Scan sliced past the end of the source and panicked"),
  ("C13", "fix: the trim hyphen of a tag without arguments is not taken as its argument", "in {% name -%} the argument pattern took the hyphen: an application tag saw TagArgs() == \"-\" (and {% capture -%} captured into a variable called '-'), so the hyphen changed non-whitespace output"),
+ ("C10", "fix: false of a named boolean type is false", "a value of type 'type Flag bool' holding false was compared with the untyped constant false and counted as true in if/unless/case, under and/or and in the default filter (also C09)"),
 ]
 KNOWN = [
  # (property, key, what)
